@@ -47,7 +47,9 @@ class DispersionMeasure(u.SpecificTypeQuantity):
         tf_args = (coeff, N, dt, center_freq, ref_freq)
 
         if use_dask:
-            delayed_tf = dask.delayed(_transfer_function, pure=True)
+            # Not pure=True: dask tokenizes scalar Quantities through their (rounded)
+            # repr, so channels whose frequencies agree to 8 decimals would share a key.
+            delayed_tf = dask.delayed(_transfer_function, pure=False)
             chirp = da.from_delayed(
                 delayed_tf(*tf_args), dtype=np.complex64, shape=(N,)
             )
